@@ -217,7 +217,7 @@ func runC16(p *eng.Prog, r *eng.Report, tier string) {
 			return true
 		})
 		c.r.Floor("C16.3", "escaped byte reads", n, 1)
-		c16Advance(c, et, "r1", map[string]bool{"+1": true, "+local:n<int>": true, "++": true})
+		c16Advance(c, et, "r1", map[string]bool{"+1": true, "+def:builtin.copy": true, "++": true})
 		c16Commit(c, et, "++", "3")
 	}
 	if ut != nil {
@@ -244,7 +244,7 @@ func runC16(p *eng.Prog, r *eng.Report, tier string) {
 		// the slice tested is src[nSrc+idx+1 : nSrc+idx+3]
 		for _, cl := range ut.Calls("jid.shouldUnescape") {
 			sl, ok := ast.Unparen(cl.Args[0]).(*ast.SliceExpr)
-			okS := ok && affine(ut, sl.Low) == "+1+local:idx<int>+r1" && affine(ut, sl.High) == "+3+local:idx<int>+r1"
+			okS := ok && affine(ut, sl.Low) == "+1+def:bytes.IndexRune+r1" && affine(ut, sl.High) == "+3+def:bytes.IndexRune+r1"
 			c.r.Check("C16.3", ut, "tested escape sequence position", "E-aff: the two characters tested are src[nSrc+idx+1 : nSrc+idx+3]", cl.Pos(), okS, "")
 		}
 	}
@@ -296,7 +296,7 @@ func runC16(p *eng.Prog, r *eng.Report, tier string) {
 				continue
 			}
 			pt, _ := g.Where(cl)
-			a := strings.Replace(ut.Norm(cl.Args[1], &pt), "local:nSrc<int>", "r1", 1)
+			a := strings.Replace(ut.Norm(cl.Args[1], &pt), "local:r1<int>", "r1", 1)
 			if a != "p1[r1:]" && a != "p1[r1:builtin.len(p1)]" {
 				continue
 			}
